@@ -11,7 +11,8 @@
 //!   positions k..k+max(m,n) straddle the register/spill boundary of the backend.
 //!   `--small B`   : complete enumeration for max(m,n) <= B (default 5 = everything)
 //!   `--stride5 S` : of the shapes with max(m,n) > B take every S-th only (0 = none)
-//!   `--window W`  : take every W-th window offset only, phase rotating with the shape index
+//!   `--window W`  : of the shapes with max(m,n) > B take every W-th window offset only, phase rotating
+//!                   with the shape index
 //!   `--shards K`  : this process handles the enumeration indices = (seed mod 1000) modulo K
 //! RANDOM part: n larger substitutions (up to 40 variables, rotations through the spill area,
 //!   fan-out >= 3, dropped objects).
@@ -167,7 +168,7 @@ pub fn cmd_subst(seed: u64, n: usize, out: &mut dyn Write, args: &[String]) {
                         for _ in 0..mm { src.push(x % nn.max(1)); x /= nn.max(1); }
                         let kv: Vec<bool> = (0..nn).map(|i| kinds >> i & 1 == 1).collect();
                         for (oi, &off) in offs.iter().enumerate() {
-                            if (oi + shape_index / shards) % window != 0 { continue; }
+                            if big && (oi + shape_index / shards) % window != 0 { continue; }
                             let shape = Shape { kinds: kv.clone(), src: src.clone(), k: off };
                             // padding kinds and id reuse vary deterministically with the shape
                             let pad = [shape_index % 3 == 0, shape_index % 2 == 0, false];
